@@ -117,6 +117,18 @@ mod proofs {
         }
     }
 
+    /// C01 / C19 (completeness): every 32-byte string that is not one of the small-order encodings is accepted - an honest public key
+    /// (never small-order: clamped scalar times the base point) is never refused, whatever its bytes
+    #[kani::proof]
+    #[kani::unwind(34)]
+    #[kani::stub(zeroize::optimization_barrier, noop_barrier)]
+    #[kani::stub(curve25519_dalek::montgomery::MontgomeryPoint::mul_clamped, mul_clamped_stub)]
+    fn x25519_pk_accepts_valid() {
+        let b: [u8; 32] = kani::any();
+        kani::assume(!is_small_order_encoding(&b));
+        assert!(<Curve25519 as KeGroup>::deserialize_pk(&b).is_ok());
+    }
+
     /// contract of dalek's `mul_clamped` played by the stub: a clamped scalar is a multiple of the cofactor 8, so the product with a
     /// small-order point is the identity; for any other point it is some non-identity point (arbitrary here)
     fn mul_clamped_stub(p: MontgomeryPoint, _bytes: [u8; 32]) -> MontgomeryPoint {
